@@ -7,6 +7,7 @@ func init() {
 	vfHarnesses["C15_boundary_types"] = vfhC15BoundaryTypes
 	vfHarnesses["C15_point_on_surface"] = vfhC15PointOnSurface
 	vfHarnesses["C15_point_on_surface_nested"] = vfhC15PointOnSurfaceNested
+	vfHarnesses["C20_point_on_surface_nested"] = vfhC15PointOnSurfaceNested
 }
 
 // Boundary of a MultiLineString of two 2-point lines: the end points that
